@@ -22,7 +22,7 @@ func vhCfg(n int) *core.RuntimeConfig {
 // relation over m operations with fully symbolic views and ids.
 func VH_C08_collector(n int, m int) {
 	cfg := vhCfg(n)
-	q := hotstuff.QuorumSize(n)
+	q := hotstuff.VQuorumRef(n)
 	tc := newTimeoutCollector(cfg)
 	var ghost []vhPair // stored pairs in arrival order
 	for step := 0; step < m; step++ {
